@@ -20,12 +20,18 @@ PENDING = 'static rules for this property are designed (DESIGN.md section 4) but
 BASELINE = ('cd /repo && /venv/bin/python -m pytest -ra -q -p no:cacheprovider --timeout=900 '
             '--continue-on-collection-errors')
 
+import json as _json
+KNOWN = _json.load(open('/verif/known_findings.json'))
 checks = []
 for pid in ALL:
     if pid not in PROPERTIES:
         continue
     spec = PROPERTIES[pid]
     rules = ', '.join(r for r, _ in spec.rules)
+    kf = sorted({e.get('finding', '?') for e in KNOWN.get('known', []) if e['property'] == pid})
+    kf_note = (f' The current tree does NOT satisfy this property in full: {len(kf)} genuine defect(s) are recorded for it '
+               f'({", ".join(kf)} in known_findings.json, each tied to one construct and printed as KNOWN-FINDING); any other '
+               f'violation is reported.') if kf else ''
     checks.append({
         'property_id': pid,
         'quick_cmd': f'python3-vt /verif/bin/check.py {pid} --tier quick',
@@ -42,7 +48,8 @@ for pid in ALL:
         },
         'level_note': f'Not decided: {spec.not_decided}. Trusted: CPython ast, the hand-built event CFG (cross-checked '
                       f'against compile()/dis in the thorough tier), the frozen fact tables (fault model, asyncio '
-                      f'primitive semantics, ownership roots), networkx. The repository is never imported or executed.',
+                      f'primitive semantics, ownership roots), networkx. The repository is never imported or executed. A passing check means '
+                      f'every listed structural condition holds, not that the property holds (DESIGN 9.6, 9.8).{kf_note}',
         'technique': spec.technique,
     })
 
